@@ -156,7 +156,8 @@ def audit(pid: str) -> dict:
 TIE_THEOREM = {"Secs": "secs_tie", "NoteDur": "noteDur_tie", "BpmDecode": "bpmDecode_tie", "BpmValid": "bpmValid_tie",
                "Nps": "nps_tie", "Anchor": "anchor_tie", "Hopo": "hopo_tie", "Scan": "scan_tie",
                "Phrase": ["tickAdd_tie", "endTick_tie", "after_tie", "during_tie"],
-               "TsAt": ["tsAt_tie", "between_tie", "timeAdd_float_tie", "timeAdd_td_tie"]}
+               "TsAt": ["tsAt_tie", "between_tie", "timeAdd_float_tie", "timeAdd_td_tie"],
+               "BpmStep": ["bpmStep_tie", "tsLower_tie"]}
 
 
 def leaf_ties(prop, st, tier="quick") -> dict:
